@@ -8,7 +8,7 @@ open Malt Malt.Analysis Malt.Drv.Dataflow
 def graphCheck (D : CfgData) (gm inn out : List (Nat × List Def)) (stmts : List StmtData) (names : List NameAnno) : Sexp :=
   let IN := solAt inn
   let OUT := solAt out
-  let m := rdRunModel D (fuelFor D)
+  let m := rdRunModel D (rdFuel D)
   let V := m.closed
   let E := D.graph.edges
   let F := rdFlow D
@@ -115,7 +115,7 @@ def handlers : List (String × (List Sexp → String)) := [
       let D ← cfgData? g inf fns
       let IN := solAt (← assoc? pairs? inn)
       let OUT := solAt (← assoc? pairs? out)
-      let m := rdRunModel D (fuelFor D)
+      let m := rdRunModel D (rdFuel D)
       let c : Ctx := { D := D, V := m.closed, IN := IN, OUT := OUT, stmts := ← (← st.list?).mapM stmt?,
                        pfix := isPostFix D.graph.edges m.closed (rdFlow D) IN OUT }
       let outs ← (← trs.list?).mapM fun t => match t with
